@@ -40,7 +40,7 @@ m = {
     "hooks": {
         "guard": "verif",
         "enable": "no hooks are needed: every observation point is public API (or internal/lex through a path-nested harness module); checks build /repo as it is",
-        "baseline_off_cmd": "cd /repo && GOFLAGS=-mod=mod GOPROXY=off GOSUMDB=off GOTOOLCHAIN=local go test -vet=off -count=1 ./... && cd fuzz && GOFLAGS=-mod=mod GOPROXY=off GOSUMDB=off GOTOOLCHAIN=local go test -vet=off -count=1 ./...",
+        "baseline_off_cmd": "cd /repo && GOFLAGS= GOPROXY=off GOSUMDB=off GOTOOLCHAIN=local go test -vet=off -count=1 ./... && cd /repo/fuzz && GOFLAGS= GOPROXY=off GOSUMDB=off GOTOOLCHAIN=local go test -vet=off -count=1 ./...",
         "source_commits": [],
         "add_only": True,
     },
